@@ -16,6 +16,7 @@ import (
 
 	"github.com/holiman/uint256"
 	ctrlertypes "github.com/rigochain/rigo-go/ctrlers/types"
+	tmtypes "github.com/tendermint/tendermint/types"
 
 	"verif/mc/engine"
 	"verif/mc/sim"
@@ -82,7 +83,7 @@ func (c *c09) Meta() engine.Meta {
 		Technique:        "bounded-exhaustive enumeration of an input grammar against the real application at several states; oracle = no panic + liveness probe",
 		Rule: "inputs: (a) every byte string of length <= 2; (b) for a valid signed encoding of each of 10 base transactions (all 8 types, contract deploy and call, transfer to a contract): every prefix, every single-bit flip, every byte replaced by 00/7f/80/ff; (c) valid envelopes, RE-SIGNED by the sender, with every value of a per-field hostile menu (unknown / empty / 19 / 21 / 33 / 64-byte addresses, amounts 0 / 2^255 / 2^256-1, gas 0 / 2^63 / 2^64-1, prices, nonce 2^64-1, type 0 / 9 / -1 / 2^31-1, nil payload, payload of another type, 0 / 31 / 33-byte hashes, heights 0 / -1 / 2^63-1 / overflowing sums, option documents that are not JSON / deeply nested / wrong types / negative / huge numbers, empty option list, choice -1 / 2^31-1, 10 kB strings and code) — all single fields and all ordered pairs (thorough also at the fresh state, plus every pair of byte positions of each valid encoding replaced by 00/ff); (d) Query: 12 paths x 11 data shapes x 8 heights, plus vm_call with well-formed (from,to) over 3 senders x 14 targets (creation, EOA, unknown, two contracts, the nine precompiles) x 5 payloads x 7 heights. " +
 			"Delivered through CheckTx and, inside a block, through DeliverTx, at a fresh chain (after 2 blocks) and after 4 blocks of the dense history. vm_call runs with the RPC environment Tendermint installs in production (stub block store). " +
-			"(e) delayed consequences: 26 governance option documents (negative, zero, maximal and overflowing values of every parameter, empty, unknown fields) are proposed, voted through and applied, followed by 6 busy blocks (staking, unstaking, evidence, missed signatures, withdrawals, a further proposal). (f) every single deviation of the four shared history families (incl. evidence, missed signatures, proposer-less blocks): every ABCI call must return. Oracle: every call returns (a recovered panic or a dead worker process is a violation); after each batch the open block ends and commits, and a well-formed transfer in a following block succeeds. " +
+			"(e) delayed consequences: 26 governance option documents (negative, zero, maximal and overflowing values of every parameter, empty, unknown fields) are proposed, voted through and applied, followed by 6 busy blocks (staking, unstaking, evidence, missed signatures, withdrawals, a further proposal); and every hostile proposal SHAPE (option type on-chain / off-chain / unknown, no options, empty option, heights) delivered by a validator and followed by votes and 12 blocks. (f) every single deviation of the four shared history families (incl. evidence, missed signatures, proposer-less blocks): every ABCI call must return. Oracle: every call returns (a recovered panic or a dead worker process is a violation); after each batch the open block ends and commits, and a well-formed transfer in a following block succeeds. " +
 			"evaluations = input shards, counters.inputs = individual inputs; distinct_nontrivial = shards in which at least one input was ACCEPTED (code 0) and one rejected.",
 		Assumptions: []string{
 			"the claim is the enumerated grammar, not all byte strings",
@@ -246,6 +247,8 @@ type c09Input struct {
 	QHeight int64
 }
 
+func tmHash(bz []byte) []byte { return tmtypes.Tx(bz).Hash() }
+
 func encodeTx(tx *ctrlertypes.Trx) (bz []byte) {
 	defer func() {
 		if r := recover(); r != nil {
@@ -398,6 +401,14 @@ func (c *c09) Prepare(tier string, seed int64) error {
 	}
 	for o := range c09DelayedOptions() {
 		c.cases = append(c.cases, c09Case{State: "fresh", Chan: "deliver", Gen: "delayed", Tmpl: o, Shards: 1, Only: -1, Lv: 1})
+	}
+	// delayed consequences of hostile PROPOSAL SHAPES (option type, option list, heights): index 1000+k = k-th proposal.* hostile
+	k := 0
+	for _, hm := range c09Hostiles() {
+		if strings.HasPrefix(hm.Name, "proposal.") {
+			c.cases = append(c.cases, c09Case{State: "fresh", Chan: "deliver", Gen: "delayed", Tmpl: 1000 + k, Shards: 1, Only: -1, Lv: 1})
+			k++
+		}
 	}
 	// histories: every single deviation of the shared history families; ANY panicking ABCI call is a violation
 	for fi, f := range sharedFamilies() {
@@ -666,8 +677,26 @@ func (c *c09) RunDesc(desc json.RawMessage) engine.Result {
 // evidence, missed signatures, transfers) for several blocks. Any panic of a consensus call is a violation.
 func (c *c09) runDelayed(cs c09Case, desc json.RawMessage) engine.Result {
 	res := engine.Result{}
-	opt := c09DelayedOptions()[cs.Tmpl]
+	opt := `{"gasPrice":"4"}`
+	var shape *hostile
+	if cs.Tmpl >= 1000 {
+		k := 0
+		for _, hm := range c09Hostiles() {
+			if strings.HasPrefix(hm.Name, "proposal.") {
+				if k == cs.Tmpl-1000 {
+					x := hm
+					shape = &x
+				}
+				k++
+			}
+		}
+	} else {
+		opt = c09DelayedOptions()[cs.Tmpl]
+	}
 	g := c09Genesis()
+	if shape != nil {
+		return c.runDelayedShape(cs, desc, *shape)
+	}
 	h := sim.History{Gen: g, Blocks: []sim.Block{
 		blk(), blk(stk("U0", "V1", "3R")),
 		blk(prop("V0", 1, 1, 1, opt)),
@@ -780,6 +809,98 @@ func (c *c09) runHistories(cs c09Case, desc json.RawMessage) engine.Result {
 	res.Nontrivial = true
 	res.Outcome = "histories"
 	res.States = append(res.States, shortHash(fmt.Sprintf("hist/%d/%d", fi, cs.Shard)))
+	return res
+}
+
+// runDelayedShape: a proposal whose PAYLOAD SHAPE is hostile (option type, option list, heights) is signed by a validator and
+// delivered; whether or not it is accepted, the chain then runs 10 more blocks with votes on it: no call may panic.
+func (c *c09) runDelayedShape(cs c09Case, desc json.RawMessage, hm hostile) engine.Result {
+	res := engine.Result{}
+	h := sim.History{Gen: c09Genesis(), Blocks: []sim.Block{blk(), blk(stk("U0", "V1", "3R"))}}
+	r := sim.Run(tmpRoot(), h, &sim.Hooks{NoStates: true})
+	defer r.Cleanup()
+	ch := r.Chain
+	report := func(l sim.CallRec) {
+		site := l.Kind + " after a hostile proposal shape"
+		for _, ln := range strings.Split(l.Log, "\n") {
+			ln = strings.TrimSpace(ln)
+			if strings.HasPrefix(ln, "github.com/rigochain/rigo-go/") {
+				if i := strings.LastIndexByte(ln, '('); i > 0 {
+					ln = ln[:i]
+				}
+				site = l.Kind + ": " + strings.TrimPrefix(ln, "github.com/rigochain/rigo-go/")
+				break
+			}
+		}
+		res.Violations = append(res.Violations, engine.Violation{Property: "C09", Kind: "panic", Site: site,
+			Detail: fmt.Sprintf("proposal with hostile shape <%s> was delivered; %s of block %d panicked: %s\n%s", hm.Name, l.Kind, l.H, l.Panic, l.Log), Case: desc})
+	}
+	step := func(rec sim.CallRec) bool {
+		res.Transitions++
+		if rec.Panic != "" {
+			report(rec)
+			return false
+		}
+		return true
+	}
+	accepted := false
+	for b := 0; b < 12; b++ {
+		if !step(ch.BeginBlock(sim.BlockOpts{Proposer: "V0"})) {
+			return res
+		}
+		if b == 0 {
+			for _, variant := range []int32{0x0101, 0x0200} {
+				base := prop("V0", 1, 1, 1, `{"gasPrice":"4"}`)
+				base.PropType = variant
+				tx := ch.Build(base, ch.EnvFor(base, nil))
+				hm.F(tx)
+				tx.Sig = nil
+				if !signSafe(sim.W("V0"), tx, ch.Gen.ChainID) {
+					continue
+				}
+				bz := encodeTx(tx)
+				if bz == nil {
+					continue
+				}
+				rec, resp := ch.DeliverRaw(bz, "hostile proposal shape "+hm.Name)
+				if !step(rec) {
+					return res
+				}
+				if resp.Code == 0 {
+					accepted = true
+					ch.Nonces["V0"]++
+					ch.Props = append(ch.Props, tmHash(bz))
+				}
+			}
+		} else if b <= 4 {
+			for i := range ch.Props {
+				for _, v := range []string{"V0", "V1", "V2"} {
+					out := ch.Deliver(vote(v, i, 0), nil)
+					if !step(out.Rec) {
+						return res
+					}
+				}
+			}
+		} else {
+			out := ch.Deliver(tr("L", "U1", "1"), nil)
+			if !step(out.Rec) {
+				return res
+			}
+		}
+		if !step(ch.EndBlock()) || !step(ch.Commit()) {
+			return res
+		}
+	}
+	res.Count("inputs", 2)
+	if accepted {
+		res.Count("inputs_accepted", 1)
+		res.Count("delayed_proposal_shapes_accepted", 1)
+	} else {
+		res.Count("inputs_rejected", 1)
+	}
+	res.Nontrivial = accepted
+	res.Outcome = "delayed-shape"
+	res.States = append(res.States, shortHash("delayed-shape/"+hm.Name))
 	return res
 }
 
